@@ -6,7 +6,8 @@ from typing import Optional
 
 from ..core import AnalysisError, FuncInfo, Report, call_name, dotted, unparse
 from ..ctx import Ctx
-from .util import actual, calls_in, enclosing, forwards, kw
+from .util import (actual, calls_in, canon_test, cguards, enclosing,
+                   forwards, is_param, kw, loopvar_over)
 
 EXPLANATION = (
     "Plumbing of the two routes, decided on the source: R14.1 one learner "
@@ -52,14 +53,17 @@ def r141(rep: Report, ctx: Ctx) -> None:
            detail="top-level statement after the dispatch")
     a = actual(call, learner, "pv_streams")
     defs = ctx.defs(disp)
+    reach = ctx.reach(disp)
+    wrap = ctx.func("wrap_generator_with_tqdm_start_and_end_messages")
     srcs = []
     if isinstance(a, ast.Name):
-        for b in defs.of(a.id):
-            v = b.value
+        for bnd in reach.at(call, a.id):
+            v = reach.resolve(bnd.value, at=bnd.stmt) if bnd.value is not None \
+                else None
             inner = v
-            if isinstance(v, ast.Call) and call_name(v) == \
-                    "wrap_generator_with_tqdm_start_and_end_messages":
-                inner = v.args[0] if v.args else v
+            if isinstance(v, ast.Call) and call_name(v) == wrap.name:
+                w0 = actual(v, wrap, wrap.params()[0])
+                inner = reach.resolve(w0, at=bnd.stmt) if w0 is not None else v
             srcs.append(call_name(inner) if isinstance(inner, ast.Call)
                         else unparse(inner))
     ok = sorted(srcs) == ["otel_to_pv", "pv_files_to_pv_streams"]
@@ -69,13 +73,38 @@ def r141(rep: Report, ctx: Ctx) -> None:
     a_map = actual(call, learner, "events_to_jobs_map")
     a_save = actual(call, learner, "save_models")
     a_dir = actual(call, learner, "output_file_directory")
+    # the dictionary the -im loop fills (found through the loop, not by name)
+    loads = [c for c in ast.walk(disp.node) if isinstance(c, ast.Call)
+             and call_name(c) == "load_events_from_file"]
+    filled = None
+    loaded_ok = False
+    if len(loads) == 1:
+        loops = enclosing(disp.node, loads[0], (ast.For,))
+        asg = enclosing(disp.node, loads[0], (ast.Assign,))
+        if loops and asg and isinstance(asg[-1].targets[0], ast.Tuple) \
+                and len(asg[-1].targets[0].elts) == 2:
+            n0, n1 = (unparse(e) for e in asg[-1].targets[0].elts)
+            store = [st for st in ast.walk(loops[-1])
+                     if isinstance(st, ast.Assign)
+                     and isinstance(st.targets[0], ast.Subscript)
+                     and isinstance(st.targets[0].value, ast.Name)
+                     and unparse(st.targets[0].slice) == n0
+                     and unparse(reach.resolve(st.value, at=st)) == n1]
+            it = reach.resolve_deep(loops[-1].iter, at=loops[-1])
+            if len(store) == 1:
+                filled = store[0].targets[0].value.id
+                loaded_ok = "input_puml_models" in unparse(it) and not [
+                    g for g in cguards(ctx, disp, store[0])
+                    if "global_options" not in " ".join(g)]
     rep.ob("R14.1", "loaded models reach the learner",
-           isinstance(a_map, ast.Name) and a_map.id == "events_to_jobs_map",
-           fi=disp, node=call, detail=f"events_to_jobs_map={unparse(a_map)}")
-    ok = a_save is not None and "output_puml_models" in unparse(a_save) \
-        and "global_options" in unparse(a_save)
+           isinstance(a_map, ast.Name) and a_map.id == filled,
+           fi=disp, node=call, detail=f"events_to_jobs_map={unparse(a_map)}; "
+           f"the -im loop fills '{filled}'")
+    sv = reach.resolve_deep(a_save, at=call) if a_save is not None else None
+    ok = sv is not None and "output_puml_models" in unparse(sv) \
+        and "global_options" in unparse(sv)
     rep.ob("R14.1", "the -om flag reaches the learner", ok, fi=disp,
-           node=call, detail=f"save_models={unparse(a_save)}")
+           node=call, detail=f"save_models={unparse(sv)}")
     rep.ob("R14.1", "the output directory reaches the learner",
            isinstance(a_dir, ast.Name) and a_dir.id ==
            "output_file_directory", fi=disp, node=call,
@@ -97,22 +126,8 @@ def r141(rep: Report, ctx: Ctx) -> None:
            fi=disp, node=pc[0] if pc else disp.node,
            detail=unparse(pc[0])[:100] if pc else "<missing>")
     # -im: every model path is loaded and keyed by the name in the file
-    loads = [c for c in ast.walk(disp.node) if isinstance(c, ast.Call)
-             and call_name(c) == "load_events_from_file"]
-    ok = False
-    if len(loads) == 1:
-        loops = enclosing(disp.node, loads[0], (ast.For,))
-        asg = enclosing(disp.node, loads[0], (ast.Assign,))
-        if loops and asg and isinstance(asg[-1].targets[0], ast.Tuple):
-            n0, n1 = (unparse(e) for e in asg[-1].targets[0].elts)
-            store = [s for s in loops[-1].body if isinstance(s, ast.Assign)
-                     and unparse(s.targets[0]) == f"events_to_jobs_map[{n0}]"
-                     and unparse(s.value) == n1]
-            it = defs.resolve(loops[-1].iter)
-            ok = len(store) == 1 and "input_puml_models" in unparse(it) \
-                and not enclosing(loops[-1], store[0], (ast.If,))
-    rep.ob("R14.1", "every -im file is loaded under the name it carries", ok,
-           fi=disp, node=loads[0] if loads else disp.node,
+    rep.ob("R14.1", "every -im file is loaded under the name it carries",
+           loaded_ok, fi=disp, node=loads[0] if loads else disp.node,
            detail="for path in input_puml_models: name, events = "
                   "load_events_from_file(path); map[name] = events")
 
@@ -171,8 +186,10 @@ def r142(rep: Report, ctx: Ctx) -> None:
     asg = enclosing(ld.node, mcall[0], (ast.Assign,))
     if asg and isinstance(asg[-1].targets[0], ast.Name):
         model_var = asg[-1].targets[0].id
+    lreach0 = ctx.reach(ld)
     for k in pv:
         v = mk.get(k)
+        v = lreach0.resolve_deep(v, at=mcall[0]) if v is not None else None
         ok = False
         if isinstance(v, ast.Subscript):
             ok = unparse(v.value) == "pv_dict" and unparse(v.slice) == \
@@ -193,9 +210,13 @@ def r142(rep: Report, ctx: Ctx) -> None:
     if sets:
         s = sets[0]
         g = s.generators[0]
+        tg = g.target
         ok = "mapping_config.model_dump().items()" in unparse(g.iter) \
-            and len(g.ifs) == 1 and unparse(g.ifs[0]).replace('"', "'") == \
-            "key != 'previousEventIds'"
+            and len(g.ifs) == 1 and isinstance(tg, ast.Tuple) and len(
+                tg.elts) == 2 and tuple(
+                x.replace('"', "'") for x in canon_test(g.ifs[0])) == (
+                "cmp", "'previousEventIds'", "NotEq", unparse(tg.elts[0])) \
+            and unparse(s.elt) == unparse(tg.elts[1])
     defaulted = [n for n, st in idx.cls("PVEventModel").fields()
                  if st.value is not None]
     rep.ob("R14.2", "mandatory = every field except the one the model "
@@ -395,7 +416,8 @@ def r143(rep: Report, ctx: Ctx) -> None:
     mk = [c for c in ast.walk(hs.node) if isinstance(c, ast.Call)
           and call_name(c) == "makedirs"]
     ok = len(mk) == 1 and "{output_file_directory}/{job_name}" in unparse(
-        mk[0].args[0]) and unparse(kw(mk[0], "exist_ok")) == "True"
+        ctx.reach(hs).resolve(mk[0].args[0], at=mk[0])) and unparse(
+        kw(mk[0], "exist_ok")) == "True"
     rep.ob("R14.3", "the workflow folder is created (idempotently)", ok,
            fi=hs, node=mk[0] if mk else hs.node,
            detail=unparse(mk[0])[:90] if mk else "<missing>")
@@ -437,12 +459,20 @@ def r144(rep: Report, ctx: Ctx) -> None:
             if not any("model_validator" in d for d in m.decorators):
                 continue
             for i in ast.walk(m.node):
-                if isinstance(i, ast.If) and any(isinstance(x, ast.Raise)
-                                                 for x in i.body):
-                    t = unparse(i.test).replace('"', "'")
-                    if "self.command == 'otel2puml'" in t and \
-                            "self.save_events" in t and " and " in t \
-                            and "not self.save_events" not in t:
+                if isinstance(i, ast.Raise):
+                    conds = set()
+                    for test, sense in ctx.cfg(m).controlling(
+                            ctx.cfg(m).node(i)):
+                        if not sense:
+                            test = ast.UnaryOp(op=ast.Not(), operand=test)
+                        parts = test.values if isinstance(
+                            test, ast.BoolOp) and isinstance(
+                            test.op, ast.And) else [test]
+                        for part in parts:
+                            conds.add(tuple(x.replace('"', "'")
+                                            for x in canon_test(part)))
+                    if conds == {("cmp", "'otel2puml'", "Eq", "self.command"),
+                                 ("truth", "self.save_events", "1")}:
                         rejected = (m, i)
     rep.ob("R14.4", "otel2puml with save_events is rejected",
            rejected is not None, fi=rejected[0] if rejected else None,
@@ -471,10 +501,10 @@ def r144(rep: Report, ctx: Ctx) -> None:
     learner = ctx.func("pv_streams_to_puml_files")
     cfg = ctx.cfg(disp)
     lc = calls_in(ctx, disp, learner)
-    early = [i for i in ast.walk(disp.node) if isinstance(i, ast.If)
-             and unparse(i.test).replace('"', "'") ==
-             "components == 'otel2pv'"
-             and any(isinstance(x, ast.Return) for x in i.body)]
+    early = [r for r in ast.walk(disp.node) if isinstance(r, ast.Return)
+             and ("cmp", "'otel2pv'", "Eq", "components") in [
+                 tuple(x.replace('"', "'") for x in g)
+                 for g in cguards(ctx, disp, r)]]
     rep.ob("R14.4", "otel2pv returns before the learner",
            bool(early) and bool(lc), fi=disp,
            node=early[0] if early else disp.node,
@@ -484,8 +514,13 @@ def r144(rep: Report, ctx: Ctx) -> None:
 def r145(rep: Report, ctx: Ctx) -> None:
     rep.rule("R14.5", "the mapping config reaches saver and loader", 8)
     f = ctx.func
+    d_top = ctx.defs(f("otel_to_pv"))
+    d_seq = ctx.defs(f("pv_job_file_to_event_sequence"))
+    d_str = ctx.defs(f("pv_job_files_to_event_sequence_streams"))
+    anyit = (lambda it: True)
     forwards(rep, ctx, "R14.5", f("otel_to_pv"), f("handle_save_events"), {
-        "job_name": "job_name", "pv_event_streams": "pv_event_streams",
+        "job_name": lambda e: loopvar_over(d_top, e, anyit, index=0),
+        "pv_event_streams": lambda e: loopvar_over(d_top, e, anyit, index=1),
         "output_file_directory": "output_file_directory",
         "mapping_config": "mapping_config"})
     forwards(rep, ctx, "R14.5", f("handle_save_events"),
@@ -501,10 +536,12 @@ def r145(rep: Report, ctx: Ctx) -> None:
         "file_list": "file_list", "mapping_config": "mapping_config"})
     forwards(rep, ctx, "R14.5", f("pv_job_files_to_event_sequence_streams"),
              f("pv_job_file_to_event_sequence"), {
-        "file_path": "file_path", "mapping_config": "mapping_config"})
+        "file_path": lambda e: loopvar_over(d_str, e, is_param("file_paths")),
+        "mapping_config": "mapping_config"})
     forwards(rep, ctx, "R14.5", f("pv_job_file_to_event_sequence"),
              f("transform_dict_into_pv_event"), {
-        "pv_dict": "event", "mapping_config": "mapping_config"})
+        "pv_dict": lambda e: loopvar_over(d_seq, e, anyit),
+        "mapping_config": "mapping_config"})
     forwards(rep, ctx, "R14.5", f("pv_event_files_to_job_id_streams"),
              f("pv_events_from_files_to_event_stream"), {
         "file_paths": "file_list", "mapping_config": "mapping_config"})
